@@ -102,25 +102,30 @@ theorem mk4_length_FVER : (mk4 "FVER").length = 4 := by decide
 
 /-! ### the chunk kinds of a written file -/
 
-theorem ssndCalc_exact (p B : Nat) :
-    ssndCalc ((p + B : Nat) : Int) ((B + 8 : Nat) : Int) (p : Int) 0 0 = ((p : Int), (B : Int), 0) := by
+theorem ssndCalc_exact (p B T : Nat) :
+    ssndCalc ((p + B + T : Nat) : Int) ((B + 8 : Nat) : Int) (p : Int) 0 0 =
+      ((p : Int), (B : Int), if T > 0 then ((p + B : Nat) : Int) else 0) := by
   unfold ssndCalc
-  have c1 : ¬ ((((B + 8 : Nat) : Int) - 8 > ((p + B : Nat) : Int) - (p : Int)) ∨ ((B + 8 : Nat) : Int) - 8 < 0) := by omega
+  have c1 : ¬ ((((B + 8 : Nat) : Int) - 8 > ((p + B + T : Nat) : Int) - (p : Int)) ∨ ((B + 8 : Nat) : Int) - 8 < 0) := by omega
   simp only [c1, if_false]
-  have c2 : ¬ (((B + 8 : Nat) : Int) - 8 - 0 + ((p : Int) + 0) < ((p + B : Nat) : Int)) := by omega
-  simp only [c2, if_false]
-  refine Prod.ext ?_ (Prod.ext ?_ rfl) <;> simp <;> omega
+  by_cases hT : T > 0
+  · have c2 : (((B + 8 : Nat) : Int) - 8 - 0 + ((p : Int) + 0) < ((p + B + T : Nat) : Int)) := by omega
+    simp only [c2, hT, if_true]
+    refine Prod.ext ?_ (Prod.ext ?_ ?_) <;> simp <;> omega
+  · have c2 : ¬ (((B + 8 : Nat) : Int) - 8 - 0 + ((p : Int) + 0) < ((p + B + T : Nat) : Int)) := by omega
+    simp only [c2, hT, if_false]
+    refine Prod.ext ?_ (Prod.ext ?_ rfl) <;> simp <;> omega
 
 /-- what `fin` does with a `.cont` -/
 def finOf (flen : Nat) (s' : Sc) : Step :=
   if s'.csize ≥ flen then .stop s' else if (s'.pos : Int) ≥ (flen : Int) - 8 then .stop s' else .cont s'
 
-theorem step_ssnd (bs : List Byte) (s : Sc) (B : Nat) (body : List Byte)
-    (hd : bs.drop s.pos = mk4 "SSND" ++ (be32 ((B : Int) + 8) ++ (be32 0 ++ (be32 0 ++ body))))
-    (hB : body.length = B) (hB32 : B + 8 < 2 ^ 32) (hc : s.csize % 2 = 0) (hu : s.used ≤ cacheLimit) (he : s.dataend = 0) :
-    bs.length = s.pos + 16 + B ∧
+theorem step_ssnd (bs : List Byte) (s : Sc) (B : Nat) (body tl : List Byte)
+    (hd : bs.drop s.pos = mk4 "SSND" ++ (be32 ((B : Int) + 8) ++ (be32 0 ++ (be32 0 ++ (body ++ tl)))))
+    (hB : body.length = B) (htl : tl.length ≤ 8) (hB32 : B + 8 < 2 ^ 32) (hc : s.csize % 2 = 0) (hu : s.used ≤ cacheLimit) (he : s.dataend = 0) :
+    bs.length = s.pos + 16 + B + tl.length ∧
     step bs s = .stop { s with pos := s.pos + 16 + B, used := s.used + 8 + 8, csize := B + 8, dataoffset := ((s.pos + 16 : Nat) : Int),
-                               datalength := (B : Int), dataend := 0 } := by
+                               datalength := (B : Int), dataend := if tl.length > 0 then ((s.pos + 16 + B : Nat) : Int) else 0 } := by
   have r1 := rdN_at hd mk4_length_SSND (by decide)
   have d1 := drop_at hd mk4_length_SSND
   have r2 := rdN_at d1 (be32_length _) (by decide)
@@ -128,9 +133,8 @@ theorem step_ssnd (bs : List Byte) (s : Sc) (B : Nat) (body : List Byte)
   have r3 := rdN_at d2 (be32_length _) (by decide)
   have d3 := drop_at d2 (be32_length _)
   have r4 := rdN_at d3 (be32_length _) (by decide)
-  have d4 := drop_at d3 (be32_length _)
-  have hlen : bs.length = s.pos + 16 + B := by
-    have hl3 : (bs.drop (s.pos + 4 + 4 + 4)).length = 4 + B := by rw [d3]; simp [be32_length, hB]
+  have hlen : bs.length = s.pos + 16 + B + tl.length := by
+    have hl3 : (bs.drop (s.pos + 4 + 4 + 4)).length = 4 + (B + tl.length) := by rw [d3]; simp [be32_length, hB]
     simp only [List.length_drop] at hl3
     omega
   refine ⟨hlen, ?_⟩
@@ -144,16 +148,15 @@ theorem step_ssnd (bs : List Byte) (s : Sc) (B : Nat) (body : List Byte)
   have hm1 : ¬ mk4 "SSND" = mk4 "FORM" := by decide
   have hm2 : ¬ mk4 "SSND" = mk4 "COMM" := by decide
   have hm3 : ¬ mk4 "SSND" = mk4 "PEAK" := by decide
-  have hcalc := ssndCalc_exact (s.pos + 16) B
+  have hcalc := ssndCalc_exact (s.pos + 16) B tl.length
   have hp16 : s.pos + 4 + 4 + 4 + 4 = s.pos + 16 := by omega
-  have hfl : s.pos + 16 + B = s.pos + 16 + B := rfl
   unfold step
   simp only [hu', if_false, hc, Nat.add_zero, r1, r2, hm0, hm1, hm2, hm3, if_true, hsz]
   unfold readSsnd
   simp only [r3, r4, hoff, hlen, he, hp16, Int.natCast_zero]
   rw [hcalc]
-  have k1 : ¬ (B + 8 ≥ s.pos + 16 + B) := by omega
-  have k2 : ((((s.pos + 16 : Nat) : Int) + (B : Int)).toNat : Int) ≥ ((s.pos + 16 + B : Nat) : Int) - 8 := by omega
+  have k1 : ¬ (B + 8 ≥ s.pos + 16 + B + tl.length) := by omega
+  have k2 : ((((s.pos + 16 : Nat) : Int) + (B : Int)).toNat : Int) ≥ ((s.pos + 16 + B + tl.length : Nat) : Int) - 8 := by omega
   simp only [k1, k2, if_false, if_true]
   have ht : (((s.pos + 16 : Nat) : Int) + (B : Int)).toNat = s.pos + 16 + B := by omega
   rw [ht]
